@@ -32,6 +32,11 @@ VERBS_PLAIN = [
     "STATUS {mbox} ()", "STATUS {mbox} (BOGUS)", "LIST", 'LIST ""', "UID FETCH 1:* (FLAGS", "FETCH 1 (BODY[HEADER.FIELDS (", "STORE 1 +FLAGS \\Seen)",
     "FETCH 1 BODY[1.2.3.MIME]", "FETCH 1 BODY[TEXT]<0.0>", "FETCH 1 BODY[]<99999.5>", "FETCH 1 (BODY[HEADER.FIELDS.NOT (Subject)] RFC822.SIZE INTERNALDATE ENVELOPE BODYSTRUCTURE)",
     "SEARCH BEFORE 1-Jan-2030 LARGER 1 OR SEEN FLAGGED", "SEARCH HEADER Subject \"\"", "SEARCH KEYWORD", "SEARCH SENTSINCE 99-Foo-2020",
+    # well-formed syntax, impossible values: calendar dates that do not exist, year 0, absurd nesting and sizes
+    "SEARCH BEFORE 31-Feb-2020", "SEARCH SINCE 0-Jan-2020", "SEARCH ON 1-Jan-0000", "SEARCH SENTBEFORE 30-Feb-1999 ALL", "UID SEARCH SENTON 31-Apr-2021",
+    'APPEND {mbox} "31-Feb-2020 10:00:00 +0000" {{3}}\r\nabc', 'APPEND {mbox} (\\Seen) "29-Feb-2023 25:61:61 +9999" {{3}}\r\nabc',
+    "SEARCH " + "NOT " * 1500 + "ALL", "SEARCH " + "(" * 1200 + "ALL" + ")" * 1200, "SEARCH " + "OR " * 600 + "ALL " * 601,
+    "SEARCH LARGER 99999999999999999999999999", "FETCH 1 BODY[]<0.99999999999999999999>", "FETCH 1 BODY[" + "1." * 400 + "1]", "STORE 1 +FLAGS (" + "\\Seen " * 400 + ")",
 ]
 DAMAGED = ["", " ", "NOOP NOOP", "a b c d e f g", "(", ")", '"', "{5}", "FETCH 1 (FLAGS))", "FETCH (1) FLAGS", "A" * 3000, "FETCH " + "1," * 500 + "1 FLAGS",
            "STORE 1 +FLAGS (" + "k " * 300 + ")", "\x00", "FETCH 1 \xff\xfe", "SELECT \"unterminated", "LOGIN {3}\r\nabc {3}\r\nxyz"]
